@@ -57,7 +57,7 @@ CLAIMS = {
         text=("Props/C02.lean proves the 3VL rewrite laws the passes rely on (conjunct splitting, AND/OR distribution) and that the absorption rewrite x OR (x AND y) -> x AND y performed by the pinned "
               "commit is unsound (witness; known finding), and the plan-level identities behind the passes, for arbitrary row types and predicates: a filter over a cross product is the inner join; filter pushdown through inner joins (either "
               "side), LEFT joins (preserved side only - the NULL-extended side is a witnessed counterexample), semi and anti joins; filter splitting / reordering; LIMIT through projections (not through filters: witness); "
-              "projection composition and filter-through-projection; semi_anti_partition (EXISTS and NOT EXISTS split the outer rows), the empty/constant-FALSE join laws, and inner_join_comm / cross_comm (swapping the inputs of an inner join gives the same bag: the law behind join reordering). Tie: every generated query - random ones plus shapes aimed at individual rules (filter on grouping columns above ROLLUP/CUBE, OR of conjunctions "
+              "projection composition and filter-through-projection; semi_anti_partition (EXISTS and NOT EXISTS split the outer rows), the empty/constant-FALSE join laws, and inner_join_comm / cross_comm (swapping the inputs of an inner join gives the same bag: the law behind join reordering), left_join_matched_part / left_join_unmatched_part (a LEFT join is its inner join plus one NULL-extended row per anti-join row). Tie: every generated query - random ones plus shapes aimed at individual rules (filter on grouping columns above ROLLUP/CUBE, OR of conjunctions "
               "spanning both join sides, filters on the nullable side of outer joins, LIMIT over UNION, pruned/duplicated projections, DISTINCT) - runs with enable_optimizer on and off; both must equal Sem."),
         note=TB + "Sem is the reference for both plans; the laws are stated on list semantics of the operators, not on a Lean model of the Rust passes themselves (DESIGN 5/C02 level 2-3: not built); each pass is tied only by the optimizer-on/off/Sem runs.",
         technique="Lean proofs of rewrite laws + differential optimizer-on / optimizer-off / Sem comparison",
